@@ -6,6 +6,7 @@
 import Zed.Proofs.Rows
 import Zed.Proofs.Merge
 import Zed.Proofs.MergeOp
+import Zed.Proofs.NullsSites
 namespace Zed.Props.C06
 open Zed
 
@@ -232,6 +233,102 @@ theorem mergeOp_sorted_rows (nullsMax : Bool) (dirs : List Bool) (m : Bool)
     (fun a b c ha hb hc => leRow_trans nullsMax dirs m a b c ha hb hc)
     (fun a => by have := leRow_total nullsMax dirs a a; simpa using this)
     pullerBatchValues parents choices outs hn h hok hs
+
+/-! ### nulls first or last: one flag, many sites
+
+  `Comparator.Compare` swaps the operands of a descending key before `compareValues` applies
+  `nullsMax`; nulls therefore follow the other values of a key iff `nullsMax ≠ descending`
+  (`nullsLast`).  The table of every construction of a comparator in the repository is regenerated
+  (`comparatorSites`: file:function, constructor, what is passed for `nullsMax`). -/
+
+/-- Obligation on the regenerated table: these are all the places that construct a comparator and
+    what each passes for `nullsMax` (a new site, or a changed argument, has to be classified here);
+    `sort.Op.setComparator`, the compare() function's default, the optimizer's pruning call,
+    `lake.ImportComparator` and the parallelizer's guard are the statements the model was written for. -/
+theorem comparator_sites_known :
+    Generated.C06.comparatorSites =
+      [("cmd/super/internal/lakemanage/scan.go:newRunBuilder", "expr.NewValueCompareFn", "true"),
+       ("compiler/kernel/op.go:Builder.compile", "expr.NewComparator", "true"),
+       ("lake/writer.go:NewWriter", "lake.ImportComparator", "(by callee)"),
+       ("lake/writer.go:NewSortedWriter", "lake.ImportComparator", "(by callee)"),
+       ("lake/writer.go:ImportComparator", "zbuf.NewComparatorNullsMax", "(by callee)"),
+       ("runtime/sam/expr/extent/span.go:NewGenericFromOrder", "expr.NewValueCompareFn", "o == order.Asc"),
+       ("runtime/sam/expr/function/compare.go:NewCompare", "expr.NewValueCompareFn", "true"),
+       ("runtime/sam/expr/function/compare.go:NewCompare", "expr.NewValueCompareFn", "false"),
+       ("runtime/sam/expr/sort.go:NewCompareFn", "expr.NewComparator", "parameter nullsMax"),
+       ("runtime/sam/expr/sort.go:NewValueCompareFn", "expr.NewComparator", "parameter nullsMax"),
+       ("runtime/sam/op/groupby/groupby.go:NewAggregator", "expr.NewComparator", "true"),
+       ("runtime/sam/op/groupby/groupby.go:NewAggregator", "expr.NewCompareFn", "true"),
+       ("runtime/sam/op/groupby/groupby.go:NewAggregator", "expr.NewComparator", "true"),
+       ("runtime/sam/op/join/join.go:New", "expr.NewValueCompareFn", "true"),
+       ("runtime/sam/op/meta/lister.go:sortObjects", "expr.NewValueCompareFn", "true"),
+       ("runtime/sam/op/meta/sequence.go:newObjectsScanner", "lake.ImportComparator", "(by callee)"),
+       ("runtime/sam/op/meta/slicer.go:NewSlicer", "expr.NewValueCompareFn", "true"),
+       ("runtime/sam/op/sort/sort.go:Op.setComparator", "expr.NewComparator",
+         "nullsMax := !o.nullsFirst; if resolvers[0].Order == order.Desc nullsMax = !nullsMax"),
+       ("runtime/sam/op/top/top.go:Op.consume", "expr.NewCompareFn", "false"),
+       ("vng/primitive.go:NewPrimitiveEncoder", "expr.NewValueCompareFn", "false"),
+       ("vng/primitive.go:PrimitiveEncoder.makeDict", "expr.NewValueCompareFn", "false"),
+       ("zbuf/merger.go:NewComparator", "expr.NewComparator", "nullsMax := sortKeys[0].Order == order.Asc"),
+       ("zbuf/merger.go:NewComparatorNullsMax", "expr.NewComparator", "true")] ∧
+    (Generated.C06.comparatorSites.all fun s => (NullsRule.ofText s.2.1 s.2.2).isSome) = true ∧
+    (nullIsMaxSites.all fun w =>
+      Generated.C06.comparatorSites.any (·.1 == w) &&
+      (Generated.C06.comparatorSites.filter (·.1 == w)).all fun s =>
+        match NullsRule.ofText s.2.1 s.2.2 with
+        | some (.always true) => true
+        | some (.callee n) => n == "lake.ImportComparator" || n == "zbuf.NewComparatorNullsMax"
+        | _ => false) = true ∧
+    Generated.C06.importComparator = ["return zbuf.NewComparatorNullsMax(zctx, pool.SortKeys)"] ∧
+    Generated.C06.sortSetComparator =
+      ["nullsMax := !o.nullsFirst",
+       "if o.reverse { for k := range resolvers { resolvers[k].Order = !resolvers[k].Order } }",
+       "if resolvers[0].Order == order.Desc { nullsMax = !nullsMax }",
+       "o.comparator = expr.NewComparator(nullsMax, resolvers...).WithMissingAsNull()"] ∧
+    Generated.C06.compareFuncCall =
+      ["nullsMax := true", "if len(args) == 3 { … nullsMax = args[2].Bool() }", "cmp := e.nullsMax",
+       "if !nullsMax { cmp = e.nullsMin }", "return zed.NewInt64(int64(cmp(args[0], args[1])))"] ∧
+    Generated.C06.optimizerCompare.head? = some "nullsMax := &dag.Literal{Kind: \"Literal\", Value: \"true\"}" ∧
+    Generated.C06.parallelSortGuard = "op.Reverse || op.NullsFirst || op.Args[0].Order == order.Desc => return" := by
+  decide
+
+/-- **nulls_consistency** — nulls first/last across sort, merge, the lake and compare(), over the
+    rules of the regenerated table:
+    (a) under flag `nm` a null key of a key with direction `d` follows every non-null value iff
+        `nm ≠ d`, and precedes it otherwise (both argument orders);
+    (b) the sort operator puts the nulls of its first key last iff `-nulls first` is not given —
+        whatever `-r`, the direction and the further keys;
+    (c) every null-is-the-maximum site (lake writer and reader, kernel merge, join, groupby, lister,
+        slicer: `comparator_sites_known`) puts nulls last for ascending and first for descending keys,
+        and so does compare() by default and in the optimizer's pruning predicate (flag `true`);
+    (d) `zbuf.NewComparator` (flag = first key ascending) puts nulls last in both directions and is the
+        default sort's comparator flag;
+    (e) the sort's comparator on one key is the merge's / the lake's comparator for the (possibly
+        reversed) direction exactly when `nullsFirst` equals "that direction is descending"; so the
+        parallelizer's guard (not `-r`, not `-nulls first`, ascending) implies equality, and a plain
+        `sort k desc` does NOT have the order of a descending pool or merge. -/
+theorem nulls_consistency :
+    (∀ (nm d : Bool) (t : Ty) (x : Val), x.isNull = false →
+      cmpKeys nm [d] [.null t] [x] = (if nullsLast nm d then .gt else .lt) ∧
+      cmpKeys nm [d] [x] [.null t] = (if nullsLast nm d then .lt else .gt)) ∧
+    (∀ (nf rev d : Bool) (ds : List Bool),
+      nullsLast (sortConfig nf rev (d :: ds)).1 ((sortConfig nf rev (d :: ds)).2.headD false) = !nf ∧
+      (sortConfig nf rev (d :: ds)).1 = NullsRule.sortFlags.flag nf false (d != rev)) ∧
+    (∀ (nf p d : Bool), nullsLast ((NullsRule.always true).flag nf p d) d = !d ∧
+      nullsLast ((NullsRule.callee "lake.ImportComparator").flag nf p d) d = !d ∧
+      nullsLast ((NullsRule.callee "zbuf.NewComparatorNullsMax").flag nf p d) d = !d) ∧
+    (∀ (nf p d : Bool), nullsLast (NullsRule.primaryAsc.flag nf p d) d = true ∧
+      NullsRule.primaryAsc.flag nf p d = (sortConfig false false [d]).1) ∧
+    (∀ (nf rev d : Bool), sortConfig nf rev [d] = (true, [d != rev]) ↔ nf = (d != rev)) ∧
+    sortConfig false false [false] = (true, [false]) ∧
+    sortConfig false false [true] ≠ (true, [true]) := by
+  refine ⟨fun nm d t x hx => ⟨cmpKeys_null_left nm d t x hx, cmpKeys_null_right nm d t x hx⟩, ?_, ?_, ?_, ?_, ?_, ?_⟩
+  · intro nf rev d ds; cases nf <;> cases rev <;> cases d <;> simp [sortConfig, nullsLast, NullsRule.flag]
+  · intro nf p d; cases d <;> simp [nullsLast, NullsRule.flag]
+  · intro nf p d; cases d <;> simp [nullsLast, NullsRule.flag, sortConfig]
+  · intro nf rev d; cases nf <;> cases rev <;> cases d <;> simp [sortConfig]
+  · decide
+  · decide
 
 /-- non-vacuity of the row guard -/
 example : (Row.mk [.num tInt64 (.int 5), .null tFloat64] 0).okFor [false, true] true := by
